@@ -648,7 +648,7 @@ def judge_nested(case, blocks):
 
 
 # ----------------------------------------------------------------------------- lines next to stacked floats
-def gen_float_case(rng, idx, allow_inline=True, allow_mid=True):
+def gen_float_case(rng, idx, allow_inline=True, allow_mid=True, allow_tall_aligned=True):
     """1..3 floats (left/right, clear) whose heights are exact multiples of the line height or one pixel off, before
     the text of the block (block-level floats or floated spans at the very start of the paragraph), sometimes one
     more float met in the middle of the text"""
@@ -657,6 +657,8 @@ def gen_float_case(rng, idx, allow_inline=True, allow_mid=True):
     em = rng.choice([6, 8, 10, 12, 15, 20, 30])
     width = fs * em + rng.choice([0, 0, 0, 1, -1])
     ta = rng.choice(['left', 'left', 'left', 'start', 'right', 'justify'])
+    if ta in ('right', 'justify') and not allow_tall_aligned:
+        lh = fs
     inline = rng.random() < 0.3 and allow_inline
     floats = []
     for k in range(rng.choice([1, 2, 2, 3])):
@@ -767,6 +769,14 @@ def classify_floats(case, blocks, clause, detail):
         over = max(x + w - hi, lo - x)
         if w <= hi - lo + EPS < w + case['fs'] + 2 * EPS and over <= case['width'] + EPS:
             return 'float-line-realigned-with-width-including-trailing-space'
+    # the second avoid_collisions of get_next_linebox is given the content height of the line (font size) instead of the
+    # height of the line box: a float that only meets the lower half-leading of the line is ignored when the line is
+    # aligned - the position is explained by the interval recomputed with the font size as height
+    if clause == 'float-start-x' and mm and case['ta'] in ('right', 'justify') and case['lh'] > case['fs']:
+        x, w, lo, hi = (float(g) for g in mm.groups())
+        l2, r2 = free_interval(B, B['floats'], ln['y'], ln['y'] + case['fs'])
+        if (l2, r2) != (lo, hi) and (abs(x + w - r2) < EPS or (case['ta'] == 'justify' and abs(w - (r2 - l2)) < EPS)):
+            return 'float-line-realigned-with-content-height'
     # floats that are inline children met at the start of line 0: one of them was placed below the top of that line
     # (clearance, no room beside the previous one) but still inside its vertical extent; the line is not shortened
     if case['inline'] and i == 0 and clause in ('float-start-x', 'float-fit', 'float-greedy'):
@@ -878,16 +888,16 @@ def check(run):
     t0 = time.time()
     stream_raw(run, rng, 4000 if thorough else 800)
     t1 = time.time()
-    stream_sfl(run, rng, 15000 if thorough else 2400)
+    stream_sfl(run, rng, 15000 if thorough else 2000)
     t2 = time.time()
     stream_align(run, rng, 4000 if thorough else 500)
     t3 = time.time()
-    stream_render(run, rng, 6000 if thorough else 900)
+    stream_render(run, rng, 6000 if thorough else 700)
     t4 = time.time()
-    stream_floats(run, rng, 5000 if thorough else 900)
+    stream_floats(run, rng, 5000 if thorough else 600)
     t5 = time.time()
     run.stream_info('float-lines', wall_s=round(t5 - t4, 1))
-    stream_avoid(run, rng, 6000 if thorough else 1200)
+    stream_avoid(run, rng, 6000 if thorough else 800)
     run.stream_info('avoid-direct', wall_s=round(time.time() - t5, 1))
     run.stream_info('pango-G', wall_s=round(t1 - t0, 1))
     run.stream_info('sfl-direct', wall_s=round(t2 - t1, 1))
@@ -1143,7 +1153,8 @@ def stream_floats(run, rng, n):
     sigs = {k.get('signature') for k in run.known}
     allow_mid = {'inline-float-text-not-shifted', 'inline-float-realigned-to-line-top'} <= sigs
     allow_inline = 'inline-float-placed-below-line-top-still-overlaps-line' in sigs
-    cases = [gen_float_case(rng, i, allow_inline, allow_mid) for i in range(n)]
+    allow_tall = 'float-line-realigned-with-content-height' in sigs
+    cases = [gen_float_case(rng, i, allow_inline, allow_mid, allow_tall) for i in range(n)]
     outs = common.run_impl('impl_c09', 'render_lines', [{'html': c['html']} for c in cases], limit=60, chunksize=8)
     known, nlines, kinds = {}, 0, set()
     for c, (st, o) in zip(cases, outs):
